@@ -229,9 +229,9 @@ def fieldNamesNotReserved (ts : TypeSystem) : Bool := ts.types.all fun d => d.fi
 def argNamesNotReserved (ts : TypeSystem) : Bool := ts.argDefs.all fun a => !reserved a.name
 /-- S: … nor a directive name -/
 def directiveNamesNotReserved (ts : TypeSystem) : Bool := ts.directives.all fun d => !reserved d.name
-/-- S: … nor an enum value name -/
+/-- S: … nor an enum value name (enum values exist on enum types only, cf. `directiveUses`) -/
 def enumValueNamesNotReserved (ts : TypeSystem) : Bool :=
-  ts.types.all fun d => d.enumValues.all fun v => !reserved v.name
+  ts.types.all fun d => d.kind != .enum || d.enumValues.all fun v => !reserved v.name
 
 /- ------------------------------------------------------------------ E-clauses (loader-specific) -/
 
